@@ -1686,6 +1686,43 @@ func c07R2Open(c *Ctx) {
 				}
 				ct.Edges(c05NilEdgesOf(call)...)
 			}
+			// the load as a step of a step table: leaving the table's loop normally means it succeeded
+			for _, t := range c05StepTables(f) {
+				for _, sv := range t.Steps {
+					g := c05StepFn(sv)
+					if g == nil {
+						continue
+					}
+					child := &c05Env{Fn: g, Parent: c05Root(f)}
+					for _, call := range Calls(g, func(string) bool { return true }) {
+						h := StaticCallee(call)
+						if h == nil || !loads[h] || isCtor(h) {
+							continue
+						}
+						onStore := false
+						for _, arg := range call.Common().Args {
+							if w, wat := child.up(arg); wat.isRoot() && SameValue(w, al) {
+								onStore = true
+							}
+						}
+						if !onStore {
+							continue
+						}
+						the := call
+						sp := c05PassSpec{Success: true, Instr: func(in ssa.Instruction, _ *c05Env) bool { return false },
+							Edges: func(e *c05Env) []Edge {
+								if e.Fn == g {
+									return c05NilEdgesOf(the)
+								}
+								return nil
+							},
+							Returned: func(v ssa.Value, e *c05Env) bool { return e.Fn == g && strip(v) == ssa.Value(the.Value()) }}
+						if c05SuccessPasses(child, sp) {
+							ct.Edges(t.Done...)
+						}
+					}
+				}
+			}
 			if len(ct.edges) == 0 || !c05AtomMustPass(a, ct) {
 				ok, detail = false, "the store returned at "+c.P.Pos(a.Ret.Pos())+" can be handed out without its index.json having been loaded successfully: Predecessors (and tags) of a reopened layout are empty"
 			}
